@@ -34,18 +34,18 @@ CandSeq(d, n) == SetToSortSeq({r \in Candidates(d) : d.rels[r].sec = n}, LAMBDA 
 HasShortAt(o, e, off) == \E j \in 1..Len(o.relocations) :
     LET t == o.relocations[j] IN t.type = ShortType(e.type) /\ t.sec = e.sec /\ t.off = off /\ t.sym = e.sym
 RECURSIVE ObsKSec(_, _, _, _, _)
-ObsKSec(d, o, order, k, K) ==
-    IF k > Len(order) THEN K
+ObsKSec(d, o, order, k, ks) ==
+    IF k > Len(order) THEN ks
     ELSE LET e == d.rels[order[k]]
-             off == e.off - HoleSize * Cardinality(K) IN
-         ObsKSec(d, o, order, k + 1, IF HasShortAt(o, e, off) THEN K \cup {order[k]} ELSE K)
+             off == e.off - HoleSize * Cardinality(ks) IN
+         ObsKSec(d, o, order, k + 1, IF HasShortAt(o, e, off) THEN ks \cup {order[k]} ELSE ks)
 ObsK(d, o) == UNION {ObsKSec(d, o, CandSeq(d, d.secs[i].name), 1, {}) : i \in 1..Len(d.secs)}
-ObsOrd(d, o, K, addrs) == IF RelsMatch(RelaxResult(d, K, addrs, "append"), o) THEN "append" ELSE "inplace"
+ObsOrd(d, o, ks, addrs) == IF RelsMatch(RelaxResult(d, ks, addrs, "append"), o) THEN "append" ELSE "inplace"
 
 T_Relax ==
     /\ IsEv("relax") /\ ph = "relax"
-    /\ \E K \in {ObsK(dst, Ev.state)} : \E a \in {ObsAddrs(Ev.state)} : \E od \in {ObsOrd(dst, Ev.state, K, a)} :
-          /\ RelaxWith(K, a, od)
+    /\ \E kk \in {ObsK(dst, Ev.state)} : \E a \in {ObsAddrs(Ev.state)} : \E od \in {ObsOrd(dst, Ev.state, kk, a)} :
+          /\ RelaxWith(kk, a, od)
           /\ Matches(dst', Ev.state)
     /\ obs' = Ev.state.sections
     /\ Consume /\ UNCHANGED <<chunk, bad, why, spur>>
@@ -84,14 +84,25 @@ ValueOKR(r, before, after) ==
          THEN PatchOKW(ArchR, t, SiteBytes(before, r), SiteBytes(after, r), RS(r), RA(r), RP(r))
          ELSE TRUE
 
+\* reloc events carry the section bytes as differences (engines/c13.py compact_relocs, a lossless re-encoding of
+\* the recorder's before / after): bdiff = before vs the bytes last observed, adiff = after vs before,
+\* each a sequence of <<position, byte>>; malformed = the section changed its length
+ApplyDiff(data, diff) ==
+    IF Len(diff) = 0 THEN data
+    ELSE MkT([p \in 1..Len(data) |->
+                 LET S == {k \in 1..Len(diff) : diff[k][1] = p} IN
+                 IF S = {} THEN data[p] ELSE diff[CHOOSE k \in S : \A j \in S : j <= k][2]])
+DiffInSite(r, diff) == \A k \in 1..Len(diff) : diff[k][1] \in Site(r)
 T_RelocateR ==
     /\ IsEv("reloc") /\ ph = "relocate" /\ Ev.r = nxt /\ Ev.sec = dst.rels[nxt].sec
-    /\ Ev.before = ObsData(Ev.sec)
-    /\ OnlySiteChanges(nxt, Ev.before, Ev.after)
+    /\ ~Ev.malformed
+    /\ Len(Ev.bdiff) = 0                       \* nothing changed between two relocations
+    /\ DiffInSite(nxt, Ev.adiff)               \* only bytes of the field change
     /\ FitsR(nxt)
-    /\ ValueOKR(nxt, Ev.before, Ev.after)
+    /\ \E before \in {ObsData(Ev.sec)} : \E after \in {ApplyDiff(before, Ev.adiff)} :
+          /\ ValueOKR(nxt, before, after)
+          /\ obs' = MkT([j \in 1..Len(obs) |-> IF obs[j].name = Ev.sec THEN [obs[j] EXCEPT !.data = after] ELSE obs[j]])
     /\ Relocate(nxt)
-    /\ obs' = MkT([j \in 1..Len(obs) |-> IF obs[j].name = Ev.sec THEN [obs[j] EXCEPT !.data = Ev.after] ELSE obs[j]])
     /\ Consume /\ UNCHANGED <<chunk, bad, why, spur>>
 \* the link may fail at a relocation only if the value does not fit the field
 T_RelocateFailsR ==
@@ -115,10 +126,10 @@ EvStepR ==
 DiagR ==
     IF ph = "relax" THEN
         (IF IsEv("relax")
-         THEN LET K == ObsK(dst, Ev.state)
+         THEN LET kk == ObsK(dst, Ev.state)
                   a == ObsAddrs(Ev.state) IN
               "do_relaxations: the observed object is not the relaxation of the object before (shrunk entries "
-              \o ToString(K) \o "): it differs in " \o Mismatch(RelaxResult(dst, K, a, ObsOrd(dst, Ev.state, K, a)), Ev.state)
+              \o ToString(kk) \o "): it differs in " \o Mismatch(RelaxResult(dst, kk, a, ObsOrd(dst, Ev.state, kk, a)), Ev.state)
          ELSE IF HasEv /\ Ev.ev = "fail" THEN "do_relaxations failed (" \o Ev.exc \o "): the unrelaxed link succeeds"
          ELSE Expect(dst, "do_relaxations"))
     ELSE IF ph = "relocate" THEN
@@ -126,8 +137,9 @@ DiagR ==
          THEN "relocation " \o dst.rels[nxt].type \o " failed (" \o Ev.exc \o ") although its value fits the field"
          ELSE IF ~IsEv("reloc") THEN Expect(dst, "relocation")
          ELSE IF Ev.r # nxt \/ Ev.sec # dst.rels[nxt].sec THEN "relocations applied in another order / section"
-         ELSE IF Ev.before # ObsData(Ev.sec) THEN "section bytes changed between relocations"
-         ELSE IF ~OnlySiteChanges(nxt, Ev.before, Ev.after) THEN "bytes outside the relocation site changed"
+         ELSE IF Ev.malformed THEN "the section changed its length during a relocation"
+         ELSE IF Len(Ev.bdiff) # 0 THEN "section bytes changed between relocations"
+         ELSE IF ~DiffInSite(nxt, Ev.adiff) THEN "bytes outside the relocation site changed"
          ELSE IF ~FitsR(nxt) THEN "relocation " \o dst.rels[nxt].type \o ": value not representable after relaxation, but output was produced"
          ELSE IF dst.rels[nxt].type \in TransferTypes
               THEN "relocation " \o dst.rels[nxt].type \o ": the patched instruction is not the input instruction with target S"
@@ -162,6 +174,11 @@ I_ShiftConsistent   == OnR(ShiftConsistent)
 I_StaysInRange      == OnR(StaysInRange)
 I_LinkRegisterKept  == OnR(LinkRegisterKept)
 I_OnlyRelaxable     == OnR(OnlyRelaxable)
+\* the placement clauses of Linker.tla, judged on the relaxed object (before the phase they are C12's business; a
+\* state invariant would be reported again in every later state of the trace)
+R_Placement         == OnR(JustRelaxed => Placement)
+R_NoOverlap         == OnR(JustRelaxed => NoOverlap)
+R_Inside            == OnR(JustRelaxed => Inside)
 \* informative: the real linker did what the transcription (Design*) says
 I_AsTranscribed     == OnR(AsTranscribed)
 =============================================================================
